@@ -9,6 +9,13 @@ pub mod c05;
 pub mod c06;
 pub mod c12;
 pub mod c13;
+pub mod c15;
+pub mod c11;
+pub mod c10;
+pub mod c08;
+pub mod c07;
+pub mod c04;
+pub mod c03;
 pub mod c14;
 pub mod c16;
 
@@ -22,6 +29,13 @@ pub fn run(ctx: &mut Ctx, replay: Option<&str>) -> bool {
         "C06" => c06::run(ctx, replay),
         "C12" => c12::run(ctx, replay),
         "C13" => c13::run(ctx, replay),
+        "C15" => c15::run(ctx, replay),
+        "C11" => c11::run(ctx, replay),
+        "C10" => c10::run(ctx, replay),
+        "C08" => c08::run(ctx, replay),
+        "C07" => c07::run(ctx, replay),
+        "C04" => c04::run(ctx, replay),
+        "C03" => c03::run(ctx, replay),
         "C14" => c14::run(ctx, replay),
         "C16" => c16::run(ctx, replay),
         _ => return false,
